@@ -124,6 +124,18 @@ void adapter_exec(Ev *ev)
         }
         long long c = rcclass(rc);
         if (rcclass(rc2) != c || b.offset != b2.offset || (rc >= 0 && u != s)) c = -999; /* u/s variants disagree */
+        /* the same octets behind three others, decoded at a non-zero read offset: same verdict and value, the
+         * offset advanced by the same count (on failure unchanged); the block still ends with the string */
+        {
+            unsigned char *blk3 = xblock(n + 3);
+            blk3[0] = 0x80; blk3[1] = 0xff; blk3[2] = 0x81;
+            for (size_t i = 0; i < n; i++) blk3[3 + i] = blk[i];
+            ByteBuffer b3 = BYTE_BUFFER_INIT(blk3, n + 3, n + 3, 3);
+            uint64_t u3 = 0; uint32_t u3_32 = 0; int rc3;
+            if (ty == 32) { rc3 = varint_decode_u32(&b3, &u3_32); u3 = u3_32; } else rc3 = varint_decode_u64(&b3, &u3);
+            if (rcclass(rc3) != rcclass(rc) || b3.offset != 3 + b.offset || (rc >= 0 && u3 != u)) c = -998;
+            xfree(blk3);
+        }
         obs(ev, c);
         obs(ev, (long long)b.offset);
         if (rc >= 0) groups(ev, u, m);
